@@ -147,8 +147,8 @@ def _pack(rep, c):
 
 def _run_native(nc):
     t0 = time.time()
-    cmd = [NATIVE_PY, os.path.join(VERIF, nc.script)] + [str(a)
-                                                           for a in nc.args]
+    py = getattr(nc, 'python', None) or NATIVE_PY
+    cmd = [py, os.path.join(VERIF, nc.script)] + [str(a) for a in nc.args]
     env = dict(os.environ)
     env['PYTHONPATH'] = REPO + os.pathsep + VERIF
     env.setdefault('PYTHONHASHSEED', '0')
